@@ -8,7 +8,8 @@ import DaskModel.Model.OverlapTime2
 `_combined_parts`, `overlap_chunk` with `before = prev_part_length`, `after = next_part_length`), alone or together with the
 timedelta `before` machinery of `C46Time`, computes every row function that is local within `(t - b, t + a)`
 (`b ≤ before`, `a ≤ after`) exactly as on the concatenated frame WHENEVER IT DOES NOT RAISE, for every partitioning with
-truthful divisions; `mapOverlapTime2_isSome_iff` says exactly when it raises (`afterOK`).
+truthful divisions; `mapOverlapTime2_isSome_iff` says exactly when it raises (`afterOK`), `time_window_centered_accepted`
+is the total form on the accepted partitionings.
 Refutation witnesses: without the empty-neighbour refusal (the code before fix 52c39fa) and without the validation of
 `_combined_parts` the immediate neighbour alone is consulted although it is narrower than the window, and rows of the
 partition after it are silently left out.
@@ -329,6 +330,118 @@ theorem goTime2_spec (b B : Option Int) (hb : backOK b B) (A a : Int) (hA : 0 < 
             simp
           · rw [List.map_cons, hck2, twin2_length, hrlen, List.map_cons]
 
+/-! ### exactly when the look-ahead side raises -/
+
+/-- neither the append task nor the validation of `_combined_parts` raises for the partition `cur` -/
+def stepB (A : Int) (cur : List (TRow α)) (rest : List (List (TRow α))) : Bool :=
+  match nextOfTime true A cur rest with
+  | none => false
+  | some nx => (checkNext true A cur nx).isSome
+
+theorem tmax_none (cur : List (TRow α)) (h : tmax cur = none) : cur = [] := by
+  unfold tmax at h
+  simpa using h
+
+theorem stepB_nil (A : Int) (cur : List (TRow α)) : stepB A cur [] = true := by
+  simp [stepB, nextOfTime, checkNext]
+
+theorem nextOfTime_nonempty (A : Int) (cur n : List (TRow α)) (r : List (List (TRow α))) (hn : n ≠ []) :
+    nextOfTime true A cur (n :: r) = some (some (headTime (2 * A) cur n)) := by
+  have : n.isEmpty = false := by cases n <;> simp_all
+  cases r <;> simp [nextOfTime, headTimeNonempty, this]
+
+theorem stepB_cons (A : Int) (cur n : List (TRow α)) (r : List (List (TRow α))) :
+    stepB A cur (n :: r) = true ↔ afterStepOK A cur n (!r.isEmpty) = true := by
+  cases hm : tmax cur with
+  | none =>
+    have := tmax_none cur hm
+    subst this
+    cases r <;> simp [stepB, nextOfTime, headTimeNonempty, checkNext, headTime, tmax, afterStepOK]
+  | some m =>
+    have hcur : cur.isEmpty = false := by
+      cases cur with
+      | nil => simp [tmax] at hm
+      | cons _ _ => rfl
+    by_cases hn : n = []
+    · subst hn
+      cases r <;> simp [stepB, nextOfTime, headTimeNonempty, checkNext, headTime, hm, afterStepOK, hcur]
+    · have hne : n.isEmpty = false := by cases n <;> simp_all
+      simp only [stepB, nextOfTime_nonempty A cur n r hn, checkNext, afterStepOK, hm, hne, Bool.true_and,
+        Bool.false_eq_true, if_false, headTime]
+      generalize hni : n.filter (fun r => decide (r.1 < m + 2 * A)) = ni
+      have hmem : ∀ x, x ∈ ni ↔ x ∈ n ∧ x.1 < m + 2 * A := by
+        intro x; rw [← hni]; simp [List.mem_filter]
+      by_cases hc : (ni.length == (ni.filter (fun r => decide (r.1 < m + A))).length && decide (ni.length > 0)) = true
+      · simp only [hc, if_true, Option.isSome_none, Bool.false_eq_true, false_iff, Bool.or_eq_true, not_or,
+          List.all_eq_true, List.any_eq_true, Bool.and_eq_true, decide_eq_true_eq]
+        simp only [Bool.and_eq_true, beq_iff_eq, decide_eq_true_eq] at hc
+        obtain ⟨hlen, hpos⟩ := hc
+        have hall := List.length_filter_eq_length_iff.mp hlen.symm
+        obtain ⟨x0, hx0⟩ := List.exists_mem_of_length_pos hpos
+        constructor
+        · intro h
+          have := h x0 ((hmem x0).mp hx0).1
+          have := ((hmem x0).mp hx0).2
+          omega
+        · intro ⟨x, hx, h1, h2⟩
+          have := hall x ((hmem x).mpr ⟨hx, h2⟩)
+          simp only [decide_eq_true_eq] at this
+          omega
+      · simp only [hc, Bool.false_eq_true, if_false, Option.isSome_some, true_iff, Bool.or_eq_true,
+          List.all_eq_true, List.any_eq_true, Bool.and_eq_true, decide_eq_true_eq]
+        by_cases hnil : ni = []
+        · left
+          intro x hx
+          have : x ∉ ni := by rw [hnil]; simp
+          rw [hmem] at this
+          have : ¬ x.1 < m + 2 * A := fun h => this ⟨hx, h⟩
+          omega
+        · right
+          have hpos : ni.length > 0 := by cases ni <;> simp_all
+          have hlen : ¬ (ni.filter (fun r => decide (r.1 < m + A))).length = ni.length := by
+            intro h
+            apply hc
+            simp [h, hpos]
+          cases hall : ni.all (fun r => decide (r.1 < m + A)) with
+          | true =>
+            exact absurd (List.length_filter_eq_length_iff.mpr (List.all_eq_true.mp hall)) hlen
+          | false =>
+            obtain ⟨x, hx, hnot⟩ := List.all_eq_false.mp hall
+            simp only [decide_eq_true_eq] at hnot
+            exact ⟨x, ((hmem x).mp hx).1, by omega, ((hmem x).mp hx).2⟩
+
+/-- the lowered expression raises exactly when some neighbour cannot be validated (`afterOK`), whatever the function -/
+theorem goTime2_isSome_iff (func : List (TRow α) → List β) (B : Option Int) (A : Int) (divs : List Int)
+    (parts : List (List (TRow α))) (ht : Truthful divs parts) :
+    ∀ (rest before : List (List (TRow α))), parts = before ++ rest →
+      ((goTime2 true true func B A divs before.length before rest).isSome = true ↔ afterOK A rest = true) := by
+  intro rest
+  induction rest with
+  | nil => intro before _; simp [goTime2, afterOK]
+  | cons cur rest' ih =>
+    intro before hparts
+    obtain ⟨pv, hpv, _⟩ := prev_spec none B trivial divs parts before rest' cur ht hparts
+    have hrec := ih (before ++ [cur]) (by rw [hparts]; simp)
+    simp only [List.length_append, List.length_singleton] at hrec
+    have hstep : (goTime2 true true func B A divs before.length before (cur :: rest')).isSome = true ↔
+        (stepB A cur rest' = true ∧ (goTime2 true true func B A divs (before.length + 1) (before ++ [cur]) rest').isSome = true) := by
+      simp only [goTime2, hpv, stepB]
+      cases hnx : nextOfTime true A cur rest' with
+      | none => simp
+      | some nx =>
+        cases hck : checkNext true A cur nx with
+        | none => simp [combinedTime2, hck]
+        | some nx' =>
+          cases hr : goTime2 true true func B A divs (before.length + 1) (before ++ [cur]) rest' with
+          | none => simp [combinedTime2, hck]
+          | some r => simp [combinedTime2, hck]
+    rw [hstep, hrec]
+    cases rest' with
+    | nil => simp [stepB_nil, afterOK]
+    | cons n r =>
+      rw [stepB_cons]
+      simp [afterOK]
+
 end Dask.C46X
 
 namespace Dask.C46
@@ -366,5 +479,149 @@ theorem time_after_local_eq_global {α β : Type} (A a : Int) (hA : 0 < A) (ha :
     (hout : mapOverlapTime2 (twinFn2 none a g) none A divs parts = some out) :
     out.flatten = twinFn2 none a g parts.flatten ∧ out.map List.length = parts.map List.length :=
   time_overlap2_local_eq_global none none trivial A a hA ha g divs parts ht out hout
+
+/-- **exactly when it raises**: on truthful divisions the lowered `MapOverlap` with a timedelta `after` raises iff some
+    partition has a neighbour that cannot be validated — `afterOK`: for every non-empty partition with maximum `m`, the next
+    partition is the empty LAST one, or is non-empty and has no row earlier than `m + 2A`, or has a row in
+    `[m + A, m + 2A)`. Independent of the function and of the look-back side (which never raises). -/
+theorem mapOverlapTime2_isSome_iff {α β : Type} (func : List (TRow α) → List β) (B : Option Int) (A : Int) (divs : List Int)
+    (parts : List (List (TRow α))) (ht : Truthful divs parts) :
+    (mapOverlapTime2 func B A divs parts).isSome = true ↔ afterOK A parts = true := by
+  have := goTime2_isSome_iff func B A divs parts ht parts [] (by simp)
+  simpa [mapOverlapTime2] using this
+
+/-- **C46 (centered time windows, total form)**: on every truthful partitioning that `afterOK` accepts the lowered
+    expression does not raise and is the function of the whole frame -/
+theorem time_window_centered_accepted {α β : Type} (B A b a : Int) (hb : b ≤ B) (hA : 0 < A) (ha : a ≤ A)
+    (g : List (TRow α) → TRow α → List (TRow α) → β) (divs : List Int) (parts : List (List (TRow α)))
+    (ht : Truthful divs parts) (hok : afterOK A parts = true) :
+    ∃ out, mapOverlapTime2 (twinFn2 (some b) a g) (some B) A divs parts = some out ∧
+      out.flatten = twinFn2 (some b) a g parts.flatten ∧ out.map List.length = parts.map List.length := by
+  have hs := (mapOverlapTime2_isSome_iff (twinFn2 (some b) a g) (some B) A divs parts ht).mpr hok
+  obtain ⟨out, hout⟩ := Option.isSome_iff_exists.mp hs
+  exact ⟨out, hout, time_window_centered_local_eq_global B A b a hb hA ha g divs parts ht out hout⟩
+
+end Dask.C46
+
+namespace Dask.C46
+open Dask.Overlap Dask.OverlapTime Dask.OverlapTime2 Dask.C46T Dask.C46X
+
+/-! ### non-vacuity and refutation witnesses (`rolling('4s', center=True, min_periods=1).sum()`: `B = A = 4`, `b = 2`, `a = 3`) -/
+
+/-- irregular widths (3 s, 2 s, 16 s): the first two partitions are narrower than the window on the look-back side
+    (slow path); every neighbour has a row in `[max + A, max + 2A)` for the validation of the look-ahead -/
+theorem truthful_ex1 : Truthful [0, 3, 8, 20]
+    ([[(0, some 1), (1, some 2), (2, none)], [(3, some 4), (7, some 5)], [(8, some 6), (12, some 7), (20, some 8)]] :
+      List (List (TRow (Option Int)))) := by
+  refine ⟨by decide, ?_, ?_, ?_⟩
+  · intro i j a b hij ha hb
+    match i, j with
+    | 0, 0 | 0, 1 | 0, 2 | 0, 3 | 1, 1 | 1, 2 | 1, 3 | 2, 2 | 2, 3 | 3, 3 =>
+      simp at ha hb; omega
+    | i + 4, _ => simp at ha
+    | _, j + 4 => simp at hb
+    | 1, 0 | 2, 0 | 2, 1 | 3, 0 | 3, 1 | 3, 2 => omega
+  · intro k p d hp hd r hr
+    match k with
+    | 0 | 1 | 2 => simp at hp hd; subst hp hd; revert r; decide
+    | k + 3 => simp at hp
+  · intro k p d hp hd hk r hr
+    match k with
+    | 0 | 1 => simp at hp hd; subst hp hd; revert r; decide
+    | k + 2 => simp at hk; omega
+
+example : slowPath 4 [0, 3, 8, 20] = true := by decide
+example : afterOK 4 [[(0, some 1), (1, some 2), (2, (none : Option Int))], [(3, some 4), (7, some 5)],
+    [(8, some 6), (12, some 7), (20, some 8)]] = true := by decide
+/-- the hypotheses of `time_window_centered_local_eq_global` are satisfiable with a window that spans boundaries -/
+example : mapOverlapTime2 (twinFn2 (some 2) 3 (gCRollSum 1)) (some 4) 4 [0, 3, 8, 20]
+    [[(0, some 1), (1, some 2), (2, none)], [(3, some 4), (7, some 5)], [(8, some 6), (12, some 7), (20, some 8)]]
+    = some [[some 3, some 7, some 6], [some 4, some 11], [some 11, some 7, some 8]] := by decide
+/-- … and of `time_after_local_eq_global` (forward window `[t, t + 3)`) -/
+example : mapOverlapTime2 (twinFn2 none 3 (gCRollSum 1)) none 4 [0, 3, 8, 20]
+    [[(0, some 1), (1, some 2), (2, none)], [(3, some 4), (7, some 5)], [(8, some 6), (12, some 7), (20, some 8)]]
+    = some [[some 3, some 6, some 4], [some 4, some 11], [some 6, some 7, some 8]] := by decide
+
+/-- an EMPTY immediate neighbour followed by the rows that are inside the window -/
+theorem truthful_ex2 : Truthful [0, 3, 3, 20]
+    ([[(0, some 1), (1, some 2), (2, some 3)], [], [(3, some 4), (4, some 5), (20, some 6)]] : List (List (TRow (Option Int)))) := by
+  refine ⟨by decide, ?_, ?_, ?_⟩
+  · intro i j a b hij ha hb
+    match i, j with
+    | 0, 0 | 0, 1 | 0, 2 | 0, 3 | 1, 1 | 1, 2 | 1, 3 | 2, 2 | 2, 3 | 3, 3 =>
+      simp at ha hb; omega
+    | i + 4, _ => simp at ha
+    | _, j + 4 => simp at hb
+    | 1, 0 | 2, 0 | 2, 1 | 3, 0 | 3, 1 | 3, 2 => omega
+  · intro k p d hp hd r hr
+    match k with
+    | 0 | 1 | 2 => simp at hp hd; subst hp hd; revert r; decide
+    | k + 3 => simp at hp
+  · intro k p d hp hd hk r hr
+    match k with
+    | 0 | 1 => simp at hp hd; subst hp hd; revert r; decide
+    | k + 2 => simp at hk; omega
+
+/-- a one-row immediate neighbour (narrower than the look-ahead) followed by rows inside the window -/
+theorem truthful_ex3 : Truthful [0, 3, 4, 20]
+    ([[(0, some 1), (1, some 2), (2, some 3)], [(3, some 4)], [(4, some 5), (5, some 6), (20, some 7)]] : List (List (TRow (Option Int)))) := by
+  refine ⟨by decide, ?_, ?_, ?_⟩
+  · intro i j a b hij ha hb
+    match i, j with
+    | 0, 0 | 0, 1 | 0, 2 | 0, 3 | 1, 1 | 1, 2 | 1, 3 | 2, 2 | 2, 3 | 3, 3 =>
+      simp at ha hb; omega
+    | i + 4, _ => simp at ha
+    | _, j + 4 => simp at hb
+    | 1, 0 | 2, 0 | 2, 1 | 3, 0 | 3, 1 | 3, 2 => omega
+  · intro k p d hp hd r hr
+    match k with
+    | 0 | 1 | 2 => simp at hp hd; subst hp hd; revert r; decide
+    | k + 3 => simp at hp
+  · intro k p d hp hd hk r hr
+    match k with
+    | 0 | 1 => simp at hp hd; subst hp hd; revert r; decide
+    | k + 2 => simp at hk; omega
+
+/-- the code as it is refuses both partitionings (documented NotImplementedError) -/
+example : mapOverlapTime2 (twinFn2 (some 2) 3 (gCRollSum 1)) (some 4) 4 [0, 3, 3, 20]
+    [[(0, some 1), (1, some 2), (2, some 3)], [], [(3, some 4), (4, some 5), (20, some 6)]] = none := by decide
+example : mapOverlapTime2 (twinFn2 (some 2) 3 (gCRollSum 1)) (some 4) 4 [0, 3, 4, 20]
+    [[(0, some 1), (1, some 2), (2, some 3)], [(3, some 4)], [(4, some 5), (5, some 6), (20, some 7)]] = none := by decide
+
+/-- "whenever it does not raise the result is that of the whole frame", for the variant `ce ch` of the lowering -/
+def LookAheadSound (ce ch : Bool) : Prop :=
+  ∀ (divs : List Int) (parts : List (List (TRow (Option Int)))) (out : List (List (Option Int))),
+    Truthful divs parts →
+    goTime2 ce ch (twinFn2 (some 2) 3 (gCRollSum 1)) (some 4) 4 divs 0 [] parts = some out →
+    out.flatten = twinFn2 (some 2) 3 (gCRollSum 1) parts.flatten
+
+/-- the code as it is (an instance of `time_window_centered_local_eq_global`) -/
+theorem lookahead_sound : LookAheadSound true true := by
+  intro divs parts out ht h
+  exact (time_window_centered_local_eq_global 4 4 2 3 (by decide) (by decide) (by decide) _ divs parts ht out
+    (by simpa [mapOverlapTime2] using h)).1
+
+/-- **refutation witness (the code BEFORE fix 52c39fa)**: the append task reads the immediate neighbour only; when that
+    partition is EMPTY `_combined_parts` has no row to validate the look-ahead with, nothing raises, and the rows of the
+    partition after it that are inside the window are silently left out: times `[0,1,2 | | 3,4,20]`, values `1…6`,
+    `rolling('4s', center=True).sum()` gives `[6, 6, 5, …]`, the whole frame `[6, 10, 14, …]`. Replayed on the real code
+    (corpus/C46). -/
+theorem empty_neighbour_unchecked_refuted : ¬ LookAheadSound false true := by
+  intro h
+  have := h [0, 3, 3, 20] [[(0, some 1), (1, some 2), (2, some 3)], [], [(3, some 4), (4, some 5), (20, some 6)]]
+    [[some 6, some 6, some 5], [], [some 12, some 9, some 6]] truthful_ex2 (by decide)
+  revert this
+  decide
+
+/-- **refutation witness (the seeded class: only the immediate neighbour is consulted although it is narrower than the
+    window, and the validation of `_combined_parts` is gone)**: times `[0,1,2 | 3 | 4,5,20]`: the one-row neighbour lies
+    wholly inside the look-ahead of row `2` (window up to `4`), row `4` of the partition after it is left out:
+    `[6, 10, 9, …]` instead of `[6, 10, 14, …]`. -/
+theorem narrow_neighbour_unvalidated_refuted : ¬ LookAheadSound true false := by
+  intro h
+  have := h [0, 3, 4, 20] [[(0, some 1), (1, some 2), (2, some 3)], [(3, some 4)], [(4, some 5), (5, some 6), (20, some 7)]]
+    [[some 6, some 10, some 9], [some 18], [some 15, some 11, some 7]] truthful_ex3 (by decide)
+  revert this
+  decide
 
 end Dask.C46
